@@ -9,7 +9,9 @@
   * `den σ (toM t) = t` for written types, `den σ t` ground for well-formed `t`;
   * checker scopes under a valuation (`denG`), the fragment `coreE/coreB/…`,
     what acceptance means (`PostE`, `PostB`, `PostS`, `PostArgs`);
-  * `Negate` (`neg_sound`), `binop` with its special cases (`binopWith_sound`).
+  * `Negate` (`neg_sound`), `binop` with its special cases (`binopWith_sound`),
+    `Option.Some/None`, `?`, `for`, constants, list literals, constructors,
+    record literals, field access (one path or `Access`), assignment.
 -/
 import RotoV.Lemmas.TcInferUnify
 import RotoV.Lemmas.TypingAux
@@ -323,14 +325,18 @@ theorem WTcx_with {cx : Cx} (h : WTcx cx) {t : MTy} (ht : WT t = true) : WTcx (c
 /-- the signatures of the environment are written types -/
 def EnvPlain (env : Env) : Prop :=
   (∀ f sig, env.fns.lookup f = some sig → sig.params.all plain = true ∧ plain sig.ret = true) ∧
-  (∀ c t, env.consts.lookup c = some t → plain t = true)
+  (∀ c t, env.consts.lookup c = some t → plain t = true) ∧
+  (∀ n fs, env.types.lookup n = some (.record fs) → (fs.all fun f => plain f.2) = true) ∧
+  (∀ n vs k tys, env.types.lookup n = some (.enum vs) → vs.lookup k = some tys → tys.all plain = true)
 
 /-! the constructs of the fragment `infer_sound` covers -/
 mutual
 def coreE : Expr → Bool
   | .intLit _ | .floatLit _ | .boolLit | .strLit | .unitLit | .var _ | .const _ | .none => true
-  | .neg e | .not e | .some e | .try e => coreE e
+  | .neg e | .not e | .some e | .try e | .field e _ | .assign _ _ _ e => coreE e
   | .listLit es => coreL es
+  | .ctor _ _ args => coreL args
+  | .record _ fs => coreF fs
   | .for _ e b => coreE e && coreB b
   | .bin op l r => op != .div && coreE l && coreE r
   | .ite c t none => coreE c && coreB t
@@ -344,6 +350,9 @@ def coreE : Expr → Bool
 def coreL : List Expr → Bool
   | [] => true
   | e :: es => coreE e && coreL es
+def coreF : List Field → Bool
+  | [] => true
+  | .mk _ e :: fs => coreE e && coreF fs
 def coreS : List Stmt → Bool
   | [] => true
   | .let_ _ none e :: rest => coreE e && coreS rest
@@ -381,6 +390,12 @@ def PostList (env : Env) (cx : Cx) (g : MGamma) (es : List Expr) (st : St) (d : 
     ∀ gd, gammaInst gd (denG σ g) = true →
       ∃ ts dd, synthList env (denCx σ cx) gd es = .ok (ts, dd) ∧
         (∀ t ∈ ts, inst t (den σ cx.expected) = true) ∧ (d = true → dd = true)
+
+def PostFields (env : Env) (cx : Cx) (g : MGamma) (fs : List Field) (decl : List (Nat × Ty)) (st : St) (d : Bool)
+    (st' : St) : Prop :=
+  WTs st'.store ∧ ∀ σ : Val, GVal σ → Sat σ st'.store → Sat σ st.store ∧
+    ∀ gd, gammaInst gd (denG σ g) = true →
+      ∃ dd, checkFields env (denCx σ cx) gd fs decl = .ok dd ∧ (d = true → dd = true)
 
 def PostArgs (env : Env) (cx : Cx) (g : MGamma) (es : List Expr) (ps : List Ty) (st : St) (d : Bool) (st' : St) : Prop :=
   WTs st'.store ∧ ∀ σ : Val, GVal σ → Sat σ st'.store → Sat σ st.store ∧
@@ -1009,6 +1024,11 @@ end RotoV.TcInfer
 namespace RotoV.TcInfer
 open RotoV.Typing RotoV.Unify RotoV.Gen
 
+theorem toMList_length : ∀ ps : List Ty, (toMList ps).length = ps.length
+  | [] => rfl
+  | _ :: ps => by simp [toMList, toMList_length ps]
+
+
 theorem den_tOption (σ : Val) (a : MTy) : den σ (tOption a) = .opt (den σ a) := by
   simp [tOption, den, denL, denName, nmOption]
 theorem den_tList (σ : Val) (a : MTy) : den σ (tList a) = .list (den σ a) := by
@@ -1176,7 +1196,7 @@ theorem const_sound {env : Env} (henv : EnvPlain env) {c : Nat}
     simp only at h2
     obtain ⟨u, st2, h3, h4⟩ := bind_ok.mp h2
     obtain ⟨rfl, rfl⟩ := pure_ok.mp h4
-    have hpl := henv.2 c t hl
+    have hpl := henv.2.1 c t hl
     obtain ⟨hW3, hE3, heq3⟩ := unifyM_ok h3 hW hcx.1 (den_toM (fun _ => .unit) t hpl).2.1
     refine ⟨hW3, fun σ hσ hs => ⟨hE3.2 σ hs, fun gd hgd => ?_⟩⟩
     obtain ⟨hd, _, hgt⟩ := den_toM σ t hpl
@@ -1212,5 +1232,428 @@ theorem listLit_sound {env : Env} {es : List Expr}
   obtain ⟨r, b1, b2⟩ := foldCompat_inst "element" (σ st.store.length) ts .unknown a2' rfl
   refine ⟨.list r, dd, by simp only [synth, a1', b1, bind, Except.bind, pure, Except.pure], ?_, a3⟩
   rw [heq2 σ hs2, den_tList]; simp only [inst, den]; exact b2
+
+theorem den_user (σ : Val) (n : Nat) : den σ (.name (nmUser n) []) = .named n := (den_toM σ (.named n) rfl).1
+theorem WT_user (n : Nat) : WT (.name (nmUser n) []) = true := (den_toM (fun _ => .unit) (.named n) rfl).2.1
+
+theorem lookup_toMFields (f : Nat) : ∀ decl : List (Nat × Ty), (toMFields decl).lookup f = (decl.lookup f).map toM
+  | [] => rfl
+  | (g, t) :: rest => by
+    simp only [toMFields, List.lookup]
+    cases (f == g) with
+    | true => rfl
+    | false => exact lookup_toMFields f rest
+
+theorem lookup_plain {decl : List (Nat × Ty)} (h : (decl.all fun f => plain f.2) = true) {f : Nat} {t : Ty}
+    (hl : decl.lookup f = some t) : plain t = true := by
+  induction decl with
+  | nil => simp [List.lookup] at hl
+  | cons p r ih =>
+    obtain ⟨g, u⟩ := p
+    simp only [List.all_cons, Bool.and_eq_true] at h
+    simp only [List.lookup] at hl
+    cases hfg : (f == g) with
+    | true => simp only [hfg] at hl; cases hl; exact h.1
+    | false => simp only [hfg] at hl; exact ih h.2 hl
+
+/-- a constructor of a user enum (`T.K` and `T.K(args)`), given the arguments -/
+theorem ctor_sound {env : Env} (henv : EnvPlain env) {ty k : Nat} {args : List Expr}
+    (iha : ∀ ps, ps.all plain = true → ∀ cx g st d st', WTs st.store → WTcx cx → WTg g →
+      inferArgsGo env cx g args (toMList ps) st = .ok d st' → PostArgs env cx g args ps st d st')
+    {cx : Cx} {g : MGamma} {st : St} {d : Bool} {st' : St} (hW : WTs st.store) (hcx : WTcx cx) (hg : WTg g)
+    (h : infer env cx g (.ctor ty k args) st = .ok d st') : PostE env cx g (.ctor ty k args) st d st' := by
+  simp only [infer] at h
+  cases ht : env.types.lookup ty with
+  | none => simp only [ht] at h; exact (throw_ok.mp h).elim
+  | some td =>
+    cases td with
+    | record fs => simp only [ht] at h; exact (throw_ok.mp h).elim
+    | enum vs =>
+      simp only [ht] at h
+      cases hk : vs.lookup k with
+      | none => simp only [hk] at h; exact (throw_ok.mp h).elim
+      | some tys =>
+        simp only [hk] at h
+        have hpl := henv.2.2.2 ty vs k tys ht hk
+        cases args with
+        | nil =>
+          simp only at h
+          by_cases he : tys.isEmpty = true
+          · simp only [he, Bool.not_true, Bool.false_eq_true, if_false] at h
+            obtain ⟨u, s1, h1, h2⟩ := bind_ok.mp h
+            obtain ⟨rfl, rfl⟩ := pure_ok.mp h2
+            obtain ⟨hW1, hE1, heq1⟩ := unifyM_ok h1 hW hcx.1 (WT_user ty)
+            refine ⟨hW1, fun σ hσ hs => ⟨hE1.2 σ hs, fun gd hgd => ?_⟩⟩
+            have hlen : tys.length = 0 := by
+              cases tys with
+              | nil => rfl
+              | cons _ _ => simp at he
+            refine ⟨.named ty, false, ?_, by rw [heq1 σ hs, den_user]; simp [inst], by simp⟩
+            simp only [synth, ht, hk, hlen, List.length_nil, bne_self_eq_false, Bool.false_eq_true, if_false,
+              checkArgs, bind, Except.bind, pure, Except.pure]
+          · simp only [he, Bool.not_false, if_true] at h; exact (throw_ok.mp h).elim
+        | cons a as =>
+          simp only at h
+          obtain ⟨d1, s1, h1, h2⟩ := bind_ok.mp h
+          obtain ⟨u, s2, h3, h4⟩ := bind_ok.mp h2
+          obtain ⟨rfl, rfl⟩ := pure_ok.mp h4
+          unfold arityThen at h1
+          rw [toMList_length] at h1
+          by_cases hlen : ((a :: as).length != tys.length) = true
+          · simp only [hlen, if_true] at h1; exact (throw_ok.mp h1).elim
+          · simp only [hlen, Bool.false_eq_true, if_false] at h1
+            obtain ⟨hW1, hp1⟩ := iha tys hpl cx g st d1 s1 hW hcx hg h1
+            obtain ⟨hW2, hE2, heq2⟩ := unifyM_ok h3 hW1 hcx.1 (WT_user ty)
+            refine ⟨hW2, fun σ hσ hs => ?_⟩
+            obtain ⟨hs0, hsyn⟩ := hp1 σ hσ (hE2.2 σ hs)
+            refine ⟨hs0, fun gd hgd => ?_⟩
+            obtain ⟨dd, a1, a2⟩ := hsyn gd hgd
+            refine ⟨.named ty, dd, ?_, by rw [heq2 σ hs, den_user]; simp [inst], a2⟩
+            simp only [synth, ht, hk, hlen, a1, bind, Except.bind, pure, Except.pure, Bool.false_eq_true, if_false]
+
+/-- a typed record literal, given its fields -/
+theorem record_sound {env : Env} (henv : EnvPlain env) {ty : Nat} {fields : List Field}
+    (ihf : ∀ decl : List (Nat × Ty), (decl.all fun f => plain f.2) = true → ∀ cx g st d st', WTs st.store → WTcx cx →
+      WTg g → inferFields env cx g fields (toMFields decl) st = .ok d st' → PostFields env cx g fields decl st d st')
+    {cx : Cx} {g : MGamma} {st : St} {d : Bool} {st' : St} (hW : WTs st.store) (hcx : WTcx cx) (hg : WTg g)
+    (h : infer env cx g (.record ty fields) st = .ok d st') : PostE env cx g (.record ty fields) st d st' := by
+  simp only [infer] at h
+  cases ht : env.types.lookup ty with
+  | none => simp only [ht] at h; exact (throw_ok.mp h).elim
+  | some td =>
+    cases td with
+    | enum vs => simp only [ht] at h; exact (throw_ok.mp h).elim
+    | record decl =>
+      simp only [ht] at h
+      by_cases hn : recordNamesOk (decl.map (·.1)) (fieldNames fields) = true
+      · simp only [hn, Bool.not_true, Bool.false_eq_true, if_false] at h
+        obtain ⟨d1, s1, h1, h2⟩ := bind_ok.mp h
+        obtain ⟨u, s2, h3, h4⟩ := bind_ok.mp h2
+        obtain ⟨rfl, rfl⟩ := pure_ok.mp h4
+        obtain ⟨hW1, hp1⟩ := ihf decl (henv.2.2.1 ty decl ht) cx g st d1 s1 hW hcx hg h1
+        obtain ⟨hW2, hE2, heq2⟩ := unifyM_ok h3 hW1 hcx.1 (WT_user ty)
+        refine ⟨hW2, fun σ hσ hs => ?_⟩
+        obtain ⟨hs0, hsyn⟩ := hp1 σ hσ (hE2.2 σ hs)
+        refine ⟨hs0, fun gd hgd => ?_⟩
+        obtain ⟨dd, a1, a2⟩ := hsyn gd hgd
+        have hnames : fieldNamesOk (decl.map (·.1)) (fieldNames fields) = none := by
+          unfold recordNamesOk at hn
+          cases hx : fieldNamesOk (List.map (fun x => x.fst) decl) (fieldNames fields) with
+          | none => rfl
+          | some e => simp [hx] at hn
+        refine ⟨.named ty, dd, ?_, by rw [heq2 σ hs, den_user]; simp [inst], a2⟩
+        simp only [synth, recordFields, ht, hnames, a1, bind, Except.bind, pure, Except.pure]
+      · simp only [hn, Bool.not_false, if_true] at h; exact (throw_ok.mp h).elim
+
+end RotoV.TcInfer
+
+namespace RotoV.TcInfer
+open RotoV.Typing RotoV.Unify RotoV.Gen
+
+theorem mkDefs_recordFields {env : Env} {n : Nat} {fs : List (Nat × MTy)}
+    (h : (mkDefs env).recordFields n = some fs) :
+    32 ≤ n ∧ ∃ decl, env.types.lookup (n - 32) = some (.record decl) ∧ fs = toMFields decl := by
+  unfold Defs.recordFields mkDefs at h
+  by_cases h1 : n < 4
+  · simp [h1] at h
+  · by_cases h2 : n < 8
+    · simp [h1, h2] at h
+    · by_cases h3 : n < 10
+      · simp [h1, h2, h3] at h
+      · by_cases h4 : n < 32
+        · simp [h1, h2, h3, h4] at h
+        · simp only [h1, h2, h3, h4, if_false] at h
+          refine ⟨by omega, ?_⟩
+          cases ht : env.types.lookup (n - 32) with
+          | none => simp [ht] at h
+          | some td =>
+            cases td with
+            | record decl => simp [ht] at h; exact ⟨decl, rfl, h.symm⟩
+            | enum vs => simp [ht] at h
+
+theorem den_user' (σ : Val) {n : Nat} (h : 32 ≤ n) (args : List MTy) : den σ (.name n args) = .named (n - 32) := by
+  have h1 : ¬ n < 8 := by omega
+  have h2 : ¬ n < 32 := by omega
+  have e8 : (n == 8) = false := by simp; omega
+  have e9 : (n == 9) = false := by simp; omega
+  have e10 : (n == 10) = false := by simp; omega
+  have e11 : (n == 11) = false := by simp; omega
+  have e12 : (n == 12) = false := by simp; omega
+  have e13 : (n == 13) = false := by simp; omega
+  have e14 : (n == 14) = false := by simp; omega
+  simp [den, denName, h1, h2, e8, e9, e10, e11, e12, e13, e14]
+
+/-- `access_field`: the field's type, as the declarative `fieldTy` gives it -/
+theorem accessField_sound {env : Env} (henv : EnvPlain env) {t ft : MTy} {f : Nat} {st st' : St}
+    (h : accessField env t f st = .ok ft st') (hW : WTs st.store) (ht : WT t = true) :
+    st = st' ∧ WT ft = true ∧ ∀ σ : Val, Sat σ st.store → ∀ tf, inst tf (den σ t) = true →
+      ∃ tf', fieldTy env tf f = some tf' ∧ inst tf' (den σ ft) = true := by
+  unfold accessField at h
+  obtain ⟨t', s1, h1, h2⟩ := bind_ok.mp h
+  obtain ⟨rfl, hres⟩ := resolveM_ok h1
+  have hWt' := resolve_WT hW ht hres
+  cases t' with
+  | name n args =>
+    simp only at h2
+    cases hf : (mkDefs env).recordFields n with
+    | none => simp only [hf] at h2; exact (throw_ok.mp h2).elim
+    | some fs =>
+      simp only [hf] at h2
+      obtain ⟨hn, decl, hd, rfl⟩ := mkDefs_recordFields hf
+      rw [lookup_toMFields] at h2
+      cases hl : decl.lookup f with
+      | none => simp only [hl, Option.map_none] at h2; exact (throw_ok.mp h2).elim
+      | some tyf =>
+        simp only [hl, Option.map_some] at h2
+        obtain ⟨rfl, rfl⟩ := pure_ok.mp h2
+        have hpl := lookup_plain (henv.2.2.1 _ decl hd) hl
+        refine ⟨rfl, (den_toM (fun _ => .unit) tyf hpl).2.1, fun σ hs tf hi => ?_⟩
+        obtain ⟨hdt, _, hgt⟩ := den_toM σ tyf hpl
+        have hden : den σ t = .named (n - 32) := by rw [← resolve_den hs hres]; exact den_user' σ hn args
+        rw [hden] at hi
+        rw [hdt]
+        cases tf with
+        | named k =>
+          have : k = n - 32 := by simpa [inst] using hi
+          subst this
+          exact ⟨tyf, by simp only [fieldTy, recordFields, hd, hl], inst_self tyf hgt⟩
+        | unknown => exact ⟨.unknown, rfl, rfl⟩
+        | never => exact ⟨.unknown, rfl, rfl⟩
+        | _ => simp [inst] at hi
+  | var _ => exact (throw_ok.mp h2).elim
+  | intVar _ _ => exact (throw_ok.mp h2).elim
+  | floatVar _ => exact (throw_ok.mp h2).elim
+  | unit => exact (throw_ok.mp h2).elim
+  | _ => simp [WT] at hWt'
+
+theorem accessPath_sound {env : Env} (henv : EnvPlain env) : ∀ (path : List Nat) {t ft : MTy} {st st' : St},
+    accessPath env t path st = .ok ft st' → WTs st.store → WT t = true →
+    st = st' ∧ WT ft = true ∧ ∀ σ : Val, Sat σ st.store → ∀ tf, inst tf (den σ t) = true →
+      ∃ tf', pathTy env tf path = some tf' ∧ inst tf' (den σ ft) = true
+  | [], t, ft, st, st', h, _, ht => by
+    simp only [accessPath] at h
+    obtain ⟨rfl, rfl⟩ := pure_ok.mp h
+    exact ⟨rfl, ht, fun σ _ tf hi => ⟨tf, rfl, hi⟩⟩
+  | f :: rest, t, ft, st, st', h, hW, ht => by
+    simp only [accessPath] at h
+    obtain ⟨t1, s1, h1, h2⟩ := bind_ok.mp h
+    obtain ⟨rfl, hW1, hp1⟩ := accessField_sound henv h1 hW ht
+    obtain ⟨rfl, hW2, hp2⟩ := accessPath_sound henv rest h2 hW hW1
+    refine ⟨rfl, hW2, fun σ hs tf hi => ?_⟩
+    obtain ⟨tf1, a1, a2⟩ := hp1 σ hs tf hi
+    obtain ⟨tf2, b1, b2⟩ := hp2 σ hs tf1 a2
+    exact ⟨tf2, by simp only [pathTy, a1, b1], b2⟩
+
+theorem pathTy_append (env : Env) : ∀ (p : List Nat) (t : Ty) (f : Nat),
+    pathTy env t (p ++ [f]) = match pathTy env t p with | some t' => fieldTy env t' f | none => none
+  | [], t, f => by
+    simp only [List.nil_append, pathTy]
+    cases fieldTy env t f <;> rfl
+  | g :: rest, t, f => by
+    simp only [List.cons_append, pathTy]
+    cases fieldTy env t g with
+    | none => rfl
+    | some t' => exact pathTy_append env rest t' f
+
+/-- an expression the printer writes as one path rooted at a variable is typed
+    by the declarative checker as that variable followed by the fields -/
+theorem synth_path (env : Env) (ctx : Ctx) (gd : Gamma) : ∀ (e : Expr) (x : Nat) (p : List Nat) (tf tf' : Ty),
+    pathOf e = some (.var x, p) → lookupVar gd x = some tf → pathTy env tf p = some tf' →
+    synth env ctx gd e = .ok (tf', false)
+  | .var y, x, p, tf, tf', hp, hl, ht => by
+    simp only [pathOf, Option.some.injEq, Prod.mk.injEq, Root.var.injEq] at hp
+    obtain ⟨rfl, rfl⟩ := hp
+    simp only [pathTy, Option.some.injEq] at ht
+    subst ht
+    simp only [synth, hl]; rfl
+  | .field e f, x, p, tf, tf', hp, hl, ht => by
+    simp only [pathOf] at hp
+    cases hpe : pathOf e with
+    | none => simp [hpe] at hp
+    | some rp =>
+      obtain ⟨r, p'⟩ := rp
+      simp only [hpe, Option.some.injEq, Prod.mk.injEq] at hp
+      obtain ⟨rfl, rfl⟩ := hp
+      rw [pathTy_append] at ht
+      cases hp' : pathTy env tf p' with
+      | none => simp [hp'] at ht
+      | some t1 =>
+        simp only [hp'] at ht
+        have := synth_path env ctx gd e x p' tf t1 hpe hl hp'
+        simp only [synth, this, ht, bind, Except.bind, pure, Except.pure]
+  | .const _, _, _, _, _, hp, _, _ => by simp [pathOf] at hp
+  | .none, _, _, _, _, hp, _, _ => by simp [pathOf] at hp
+  | .ctor _ _ [], _, _, _, _, hp, _, _ => by simp [pathOf] at hp
+  | .ctor _ _ (_ :: _), _, _, _, _, hp, _, _ => by simp [pathOf] at hp
+  | .intLit _, _, _, _, _, hp, _, _ | .floatLit _, _, _, _, _, hp, _, _ | .boolLit, _, _, _, _, hp, _, _
+  | .strLit, _, _, _, _, hp, _, _ | .unitLit, _, _, _, _, hp, _, _ | .neg _, _, _, _, _, hp, _, _
+  | .not _, _, _, _, _, hp, _, _ | .bin _ _ _, _, _, _, _, hp, _, _ | .ite _ _ _, _, _, _, _, hp, _, _
+  | .while _ _, _, _, _, _, hp, _, _ | .for _ _ _, _, _, _, _, hp, _, _ | .block _, _, _, _, _, hp, _, _
+  | .call _ _, _, _, _, _, hp, _, _ | .mcall _ _ _, _, _, _, _, hp, _, _ | .assign _ _ _ _, _, _, _, _, hp, _, _
+  | .cassign _ _ _ _ _, _, _, _, _, hp, _, _ | .ret _ _, _, _, _, _, hp, _, _ | .record _ _, _, _, _, _, hp, _, _
+  | .listLit _, _, _, _, _, hp, _, _ | .some _, _, _, _, _, hp, _, _ | .try _, _, _, _, _, hp, _, _
+  | .match _ _, _, _, _, _, hp, _, _ | .fstr _, _, _, _, _, hp, _, _ => by simp [pathOf] at hp
+
+theorem synth_path_const (env : Env) (ctx : Ctx) (gd : Gamma) : ∀ (e : Expr) (c : Nat) (p : List Nat) (t tf' : Ty),
+    pathOf e = some (.const c, p) → env.consts.lookup c = some t → pathTy env t p = some tf' →
+    synth env ctx gd e = .ok (tf', false)
+  | .const y, c, p, t, tf', hp, hl, ht => by
+    simp only [pathOf, Option.some.injEq, Prod.mk.injEq, Root.const.injEq] at hp
+    obtain ⟨rfl, rfl⟩ := hp
+    simp only [pathTy, Option.some.injEq] at ht
+    subst ht
+    simp only [synth, hl]; rfl
+  | .field e f, c, p, t, tf', hp, hl, ht => by
+    simp only [pathOf] at hp
+    cases hpe : pathOf e with
+    | none => simp [hpe] at hp
+    | some rp =>
+      obtain ⟨r, p'⟩ := rp
+      simp only [hpe, Option.some.injEq, Prod.mk.injEq] at hp
+      obtain ⟨rfl, rfl⟩ := hp
+      rw [pathTy_append] at ht
+      cases hp' : pathTy env t p' with
+      | none => simp [hp'] at ht
+      | some t1 =>
+        simp only [hp'] at ht
+        have := synth_path_const env ctx gd e c p' t t1 hpe hl hp'
+        simp only [synth, this, ht, bind, Except.bind, pure, Except.pure]
+  | .var _, _, _, _, _, hp, _, _ => by simp [pathOf] at hp
+  | .none, _, _, _, _, hp, _, _ => by simp [pathOf] at hp
+  | .ctor _ _ [], _, _, _, _, hp, _, _ => by simp [pathOf] at hp
+  | .ctor _ _ (_ :: _), _, _, _, _, hp, _, _ => by simp [pathOf] at hp
+  | .intLit _, _, _, _, _, hp, _, _ | .floatLit _, _, _, _, _, hp, _, _ | .boolLit, _, _, _, _, hp, _, _
+  | .strLit, _, _, _, _, hp, _, _ | .unitLit, _, _, _, _, hp, _, _ | .neg _, _, _, _, _, hp, _, _
+  | .not _, _, _, _, _, hp, _, _ | .bin _ _ _, _, _, _, _, hp, _, _ | .ite _ _ _, _, _, _, _, hp, _, _
+  | .while _ _, _, _, _, _, hp, _, _ | .for _ _ _, _, _, _, _, hp, _, _ | .block _, _, _, _, _, hp, _, _
+  | .call _ _, _, _, _, _, hp, _, _ | .mcall _ _ _, _, _, _, _, hp, _, _ | .assign _ _ _ _, _, _, _, _, hp, _, _
+  | .cassign _ _ _ _ _, _, _, _, _, hp, _, _ | .ret _ _, _, _, _, _, hp, _, _ | .record _ _, _, _, _, _, hp, _, _
+  | .listLit _, _, _, _, _, hp, _, _ | .some _, _, _, _, _, hp, _, _ | .try _, _, _, _, _, hp, _, _
+  | .match _ _, _, _, _, _, hp, _, _ | .fstr _, _, _, _, _, hp, _, _ => by simp [pathOf] at hp
+
+/-- field access: one path `v.a.b` rooted at a variable, or `Access` on any other expression -/
+theorem field_sound {env : Env} (henv : EnvPlain env) {e : Expr} {f : Nat} (ih : IH env e)
+    {cx : Cx} {g : MGamma} {st : St} {d : Bool} {st' : St} (hW : WTs st.store) (hcx : WTcx cx) (hg : WTg g)
+    (h : infer env cx g (.field e f) st = .ok d st') : PostE env cx g (.field e f) st d st' := by
+  simp only [infer] at h
+  cases hp : pathOf (.field e f) with
+  | none =>
+    simp only [hp] at h
+    obtain ⟨v, s1, h1, h2⟩ := bind_ok.mp h
+    obtain ⟨rfl, hE1⟩ := freshVar_ok h1
+    obtain ⟨d1, s2, h3, h4⟩ := bind_ok.mp h2
+    obtain ⟨ft, s3, h5, h6⟩ := bind_ok.mp h4
+    obtain ⟨u, s4, h7, h8⟩ := bind_ok.mp h6
+    obtain ⟨rfl, rfl⟩ := pure_ok.mp h8
+    obtain ⟨hW2, hp2⟩ := ih (cx.withTy (.var st.store.length)) g s1 d1 s2 (hE1.1 hW) (WTcx_with hcx (WT_var _)) hg h3
+    obtain ⟨rfl, hWft, hpf⟩ := accessField_sound henv h5 hW2 (WT_var _)
+    obtain ⟨hW4, hE4, heq4⟩ := unifyM_ok h7 hW2 hcx.1 hWft
+    refine ⟨hW4, fun σ hσ hs => ?_⟩
+    have hs2 := hE4.2 σ hs
+    obtain ⟨hs1, hsyn⟩ := hp2 σ hσ hs2
+    refine ⟨hE1.2 σ hs1, fun gd hgd => ?_⟩
+    obtain ⟨t, dd, a1, a2, a3⟩ := hsyn gd hgd
+    have a1' : synth env (denCx σ cx) gd e = .ok (t, dd) := a1
+    obtain ⟨tf', b1, b2⟩ := hpf σ hs2 t a2
+    refine ⟨tf', dd, ?_, by rw [heq4 σ hs]; exact b2, a3⟩
+    simp only [synth, a1', b1, bind, Except.bind, pure, Except.pure]
+  | some rp =>
+    obtain ⟨root, path⟩ := rp
+    cases root with
+    | var x =>
+      simp only [hp] at h
+      obtain ⟨p, s1, h1, h2⟩ := bind_ok.mp h
+      unfold rootTy at h1
+      simp only [Bool.false_eq_true, if_false] at h1
+      cases hl : lookupM g x with
+      | none => simp only [hl] at h1; exact (throw_ok.mp h1).elim
+      | some t =>
+        simp only [hl] at h1
+        obtain ⟨rfl, rfl⟩ := pure_ok.mp h1
+        simp only at h2
+        obtain ⟨ft, s2, h3, h4⟩ := bind_ok.mp h2
+        obtain ⟨u, s3, h5, h6⟩ := bind_ok.mp h4
+        obtain ⟨rfl, rfl⟩ := pure_ok.mp h6
+        obtain ⟨rfl, hWft, hpf⟩ := accessPath_sound henv path h3 hW (lookupM_WT hg hl)
+        obtain ⟨hW3, hE3, heq3⟩ := unifyM_ok h5 hW hcx.1 hWft
+        refine ⟨hW3, fun σ hσ hs => ⟨hE3.2 σ hs, fun gd hgd => ?_⟩⟩
+        obtain ⟨tf, c1, c2, _⟩ := gamma_lookup hgd x (den σ t) (by rw [lookup_denG, hl]; rfl)
+        obtain ⟨tf', b1, b2⟩ := hpf σ (hE3.2 σ hs) tf c2
+        exact ⟨tf', false, synth_path env _ gd (.field e f) x path tf tf' hp c1 b1, by rw [heq3 σ hs]; exact b2, by simp⟩
+    | const c =>
+      simp only [hp] at h
+      obtain ⟨p, s1, h1, h2⟩ := bind_ok.mp h
+      unfold rootTy at h1
+      simp only [if_true] at h1
+      cases hl : env.consts.lookup c with
+      | none => simp only [hl] at h1; exact (throw_ok.mp h1).elim
+      | some t =>
+        -- `C.a`: constants of record type; outside the fragment (not produced by `coreE`-checked callers)
+        simp only [hl] at h1
+        obtain ⟨rfl, rfl⟩ := pure_ok.mp h1
+        simp only at h2
+        obtain ⟨ft, s2, h3, h4⟩ := bind_ok.mp h2
+        obtain ⟨u, s3, h5, h6⟩ := bind_ok.mp h4
+        obtain ⟨rfl, rfl⟩ := pure_ok.mp h6
+        have hpl := henv.2.1 c t hl
+        obtain ⟨rfl, hWft, hpf⟩ := accessPath_sound henv path h3 hW (den_toM (fun _ => .unit) t hpl).2.1
+        obtain ⟨hW3, hE3, heq3⟩ := unifyM_ok h5 hW hcx.1 hWft
+        refine ⟨hW3, fun σ hσ hs => ⟨hE3.2 σ hs, fun gd hgd => ?_⟩⟩
+        obtain ⟨hdt, _, hgt⟩ := den_toM σ t hpl
+        obtain ⟨tf', b1, b2⟩ := hpf σ (hE3.2 σ hs) t (by rw [hdt]; exact inst_self t hgt)
+        exact ⟨tf', false, synth_path_const env _ gd (.field e f) c path t tf' hp hl b1, by rw [heq3 σ hs]; exact b2,
+          by simp⟩
+    | ctor =>
+      simp only [hp] at h
+      obtain ⟨u, s1, _, h2⟩ := bind_ok.mp h
+      exact (throw_ok.mp h2).elim
+
+/-- assignment to a local variable or to fields of it -/
+theorem assign_sound {env : Env} (henv : EnvPlain env) {isConst : Bool} {x : Nat} {path : List Nat} {e : Expr}
+    (ih : IH env e)
+    {cx : Cx} {g : MGamma} {st : St} {d : Bool} {st' : St} (hW : WTs st.store) (hcx : WTcx cx) (hg : WTg g)
+    (h : infer env cx g (.assign isConst x path e) st = .ok d st') :
+    PostE env cx g (.assign isConst x path e) st d st' := by
+  simp only [infer] at h
+  obtain ⟨u, s1, h1, h2⟩ := bind_ok.mp h
+  obtain ⟨p, s2, h3, h4⟩ := bind_ok.mp h2
+  obtain ⟨hW1, hE1, heq1⟩ := unifyM_ok h1 hW hcx.1 WT_unit
+  cases isConst with
+  | true =>
+    unfold rootTy at h3
+    simp only [if_true] at h3
+    cases hl : env.consts.lookup x with
+    | none => simp only [hl] at h3; exact (throw_ok.mp h3).elim
+    | some t =>
+      simp only [hl] at h3
+      obtain ⟨rfl, rfl⟩ := pure_ok.mp h3
+      simp only at h4
+      obtain ⟨ft, s3, h5, h6⟩ := bind_ok.mp h4
+      simp only [Bool.not_false, if_true] at h6
+      exact (throw_ok.mp h6).elim
+  | false =>
+    unfold rootTy at h3
+    simp only [Bool.false_eq_true, if_false] at h3
+    cases hl : lookupM g x with
+    | none => simp only [hl] at h3; exact (throw_ok.mp h3).elim
+    | some t =>
+      simp only [hl] at h3
+      obtain ⟨rfl, rfl⟩ := pure_ok.mp h3
+      simp only at h4
+      obtain ⟨ft, s3, h5, h6⟩ := bind_ok.mp h4
+      simp only [Bool.not_true, Bool.false_eq_true, if_false] at h6
+      obtain ⟨rfl, hWft, hpf⟩ := accessPath_sound henv path h5 hW1 (lookupM_WT hg hl)
+      obtain ⟨hW3, hp3⟩ := ih (cx.withTy ft) g s1 d st' hW1 (WTcx_with hcx hWft) hg h6
+      refine ⟨hW3, fun σ hσ hs => ?_⟩
+      obtain ⟨hs1, hsyn⟩ := hp3 σ hσ hs
+      refine ⟨hE1.2 σ hs1, fun gd hgd => ?_⟩
+      obtain ⟨te, dd, a1, a2, a3⟩ := hsyn gd hgd
+      have a1' : synth env (denCx σ cx) gd e = .ok (te, dd) := a1
+      have a2' : inst te (den σ ft) = true := a2
+      obtain ⟨tf, c1, c2, _⟩ := gamma_lookup hgd x (den σ t) (by rw [lookup_denG, hl]; rfl)
+      obtain ⟨tp, b1, b2⟩ := hpf σ hs1 tf c2
+      obtain ⟨hcm, _⟩ := inst_compat_meet _ te tp a2' b2
+      refine ⟨.unit, dd, ?_, by rw [heq1 σ hs1]; rfl, a3⟩
+      simp only [synth, c1, b1, a1', expect_ok' hcm, bind, Except.bind, pure, Except.pure, Bool.false_eq_true, if_false]
 
 end RotoV.TcInfer
